@@ -478,3 +478,64 @@ pub fn contexts() -> Vec<Value> {
         Value::from_pairs([("x", Value::from(1)), ("xs", Value::from(vec![3])), ("m", m), ("tree", Value::from(Vec::<Value>::new()))]),
     ]
 }
+
+// ---------------------------------------------------------------------------------------------
+// multi-template families (macros / include / extends / super / import), built from the depth-1
+// program space as inner content.  Templates call the global function `probe()` at strategic
+// places; every check using this family registers one (possibly a no-op returning "").
+
+#[derive(Clone, Debug)]
+pub struct Multi {
+    pub name: String,
+    pub templates: Vec<(&'static str, String)>,
+    pub main: &'static str,
+}
+
+pub fn multi_corpus(stride: u64) -> Vec<Multi> {
+    let g = Gen::new(Opts { depth: 1, max_programs: u64::MAX, multi_template: false, loop_controls: true });
+    let size = g.size();
+    let mut out = vec![];
+    let mut n = 0;
+    while n < size {
+        let p = g.program(n).source();
+        let q = g.program((n * 7 + 3) % size).source();
+        let tag = format!("p{}", n);
+        out.push(Multi {
+            name: format!("{}:include", tag),
+            templates: vec![("main", "A{{ probe() }}{% include 'inc' %}{{ probe() }}B".into()), ("inc", format!("{{{{ probe() }}}}{}", p))],
+            main: "main",
+        });
+        out.push(Multi {
+            name: format!("{}:include_in_loop", tag),
+            templates: vec![("main", "{% for i in xs %}{% include 'inc' %}{{ probe() }}{% endfor %}|{{ x }}".into()), ("inc", format!("{}{{{{ probe() }}}}", p))],
+            main: "main",
+        });
+        out.push(Multi {
+            name: format!("{}:extends_super", tag),
+            templates: vec![
+                ("main", format!("{{% extends 'base' %}}junk{{% block b %}}[{{{{ super() }}}}{{{{ probe() }}}}]{}{{% endblock %}}", p)),
+                ("base", format!("H{{{{ probe() }}}}{{% block b %}}{}{{{{ probe() }}}}{{% endblock %}}F{{% block c %}}c{{% endblock %}}", q)),
+            ],
+            main: "main",
+        });
+        out.push(Multi {
+            name: format!("{}:import_macro", tag),
+            templates: vec![
+                ("main", "{% from 'lib' import lm %}{{ probe() }}{{ lm(1) }}{{ lm(2) }}{% import 'lib' as l %}{{ l.lm(3) }}{{ probe() }}".into()),
+                ("lib", format!("{{% macro lm(i) %}}{{{{ probe() }}}}{}{{% endmacro %}}{{% set exported = 1 %}}", p)),
+            ],
+            main: "main",
+        });
+        out.push(Multi {
+            name: format!("{}:three_level", tag),
+            templates: vec![
+                ("main", "{% extends 'mid' %}{% block b %}<{{ super() }}>{% endblock %}".into()),
+                ("mid", format!("{{% extends 'base' %}}{{% block b %}}({{{{ super() }}}}){}{{{{ probe() }}}}{{% endblock %}}", p)),
+                ("base", "{{ probe() }}{% block b %}base{{ probe() }}{% endblock %}!".into()),
+            ],
+            main: "main",
+        });
+        n += stride;
+    }
+    out
+}
